@@ -110,6 +110,13 @@ Print bad.
     return len(items)
 
 
+# proof gate: files whose statements are counted as obligations, and the theorems of props/C01.v
+# that must exist and be closed under the global context
+PROOFS = qc.PROOFS + ["lib/Linearizability.v", "proofs/LinearizabilityProofs.v", "models/QueueHistory.v", "proofs/QueueLinProofs.v"]
+REQUIRED_THEOREMS = ["c01_queue_invariant", "c01_no_nil_dereference", "c01_refines_fifo", "c01_thread_protocol",
+                     "c01_no_loss_dup_invent", "c01_linearizable", "c01_herlihy_wing_linearizable",
+                     "c01_hw_linearization_witness", "c01_fifo_legal_consequences"]
+
 TRUSTED = [
     "cooperative scheduler harness/internal/coop + verif-tag yield hooks in loom/queue.go (queueLoad/queueCas): one step = one shared access",
     "modelled, not verified: pointer identity of queue nodes as position in the chain (nodes are GC-managed, next CASed from nil once); Go atomics as sequentially consistent steps; goroutine scheduling as arbitrary interleaving of those steps",
@@ -125,7 +132,10 @@ def run(chk):
                        "completion and the final drain. Streams: every interleaving of 2 threads x 1 op; one schedule per (reachable model state, "
                        "enabled thread) edge for 2-3 threads x 1-3 ops; random bursty schedules for 3-4 threads x up to 5 ops. "
                        "non-trivial = schedule interleaves at least two threads; distinct = distinct case line")
-    chk.run_proof_gate(qc.PROOFS)
+    chk.run_proof_gate(PROOFS)
+    missing = [t for t in REQUIRED_THEOREMS if t not in chk.proof.get("theorems", []) or chk.proof.get("assumptions", {}).get(t) != []]
+    if missing:
+        chk.proof_failures.append("props/C01.v: required theorem(s) missing or not closed under the global context: " + ", ".join(missing))
     binary = qc.build_coop(chk)
     if binary:
         from . import pure
